@@ -20,6 +20,14 @@ def _gen(ctx, cfg, module, simulate=None, timeout=600, name=None):
     return vlib.parse_sim_behaviours(r.out)
 
 
+def _parallel(jobs, workers=3):
+    """Run independent (light) TLC jobs concurrently; results in job order, first exception re-raised."""
+    import concurrent.futures as cf
+    with cf.ThreadPoolExecutor(max_workers=workers) as ex:
+        futs = [ex.submit(j) for j in jobs]
+        return [f.result() for f in futs]
+
+
 def _expect_defect(ctx, cfg, module, want):
     """The Defects={d} variant of the design must violate the property (the model really distinguishes)."""
     r = ctx.tlc(SPEC, cfg, module=module, expect_fail=True, timeout=600, deadlock_check=False)
@@ -46,12 +54,13 @@ def _cut(rows, line):
 
 
 def _judge(ctx, trace, nlines, mon_cfg, conf_cfg, tag):
-    mon = ctx.tlc(SPEC, mon_cfg, dfs=True, files={"trace.ndjson": trace}, timeout=1500, heap="8g", name="mon-" + tag)
+    mon, conf = _parallel([
+        lambda: ctx.tlc(SPEC, mon_cfg, dfs=True, files={"trace.ndjson": trace}, timeout=1500, heap="8g", name="mon-" + tag),
+        lambda: ctx.tlc(SPEC, conf_cfg, dfs=True, files={"trace.ndjson": trace}, timeout=1500, heap="8g", expect_fail=True,
+                        name="conf-" + tag)], workers=2)
     if mon.depth != nlines + 1:
         raise vlib.Infra("monitor %s did not consume the whole trace (%d of %d)" % (mon_cfg, mon.depth - 1, nlines))
     mism = _mismatches(mon.out)
-    conf = ctx.tlc(SPEC, conf_cfg, dfs=True, files={"trace.ndjson": trace}, timeout=1500, heap="8g", expect_fail=True,
-                   name="conf-" + tag)
     drift = None
     if conf.violated:
         drift = "%s: %s violated on the real trace at line %d" % (conf_cfg, conf.violated, conf.depth)
@@ -74,17 +83,19 @@ def run_c22(ctx, pid):
     q = ctx.quick
     # 1. design: repaired design holds for every counter value of a W-bit counter; the shipped code and the
     #    "obvious" unsigned-modulo repair violate it in the model
-    mc_rr = ctx.tlc_must_hold(SPEC, "MC_Balancer_rr.cfg" if q else "MC_Balancer_rr_t.cfg", module="MC_Balancer", timeout=900)
-    mc_ll = ctx.tlc_must_hold(SPEC, "MC_Balancer_ll.cfg" if q else "MC_Balancer_ll_t.cfg", module="MC_Balancer", timeout=1500)
-    d1 = _expect_defect(ctx, "MC_Balancer_rr_WrapIndex.cfg", "MC_Balancer", ("PicksConfigured", "Cyclic"))
-    d2 = _expect_defect(ctx, "MC_Balancer_rr_WrapOrder.cfg", "MC_Balancer", ("Cyclic",))
+    mc_rr, mc_ll, d1, d2 = _parallel([
+        lambda: ctx.tlc_must_hold(SPEC, "MC_Balancer_rr.cfg" if q else "MC_Balancer_rr_t.cfg", module="MC_Balancer", timeout=900),
+        lambda: ctx.tlc_must_hold(SPEC, "MC_Balancer_ll.cfg" if q else "MC_Balancer_ll_t.cfg", module="MC_Balancer", timeout=1500),
+        lambda: _expect_defect(ctx, "MC_Balancer_rr_WrapIndex.cfg", "MC_Balancer", ("PicksConfigured", "Cyclic")),
+        lambda: _expect_defect(ctx, "MC_Balancer_rr_WrapOrder.cfg", "MC_Balancer", ("Cyclic",))], workers=2)
     ctx.log("design: rr %d states, ll/rnd %d states; WrapIndex violates %s, WrapOrder violates %s"
             % (mc_rr.distinct, mc_ll.distinct, d1.violated, d2.violated))
 
     # 2. behaviours (real width, presets just below the wrap)
-    rr = _gen(ctx, "Gen_Balancer_rr.cfg" if q else "Gen_Balancer_rr_t.cfg", "Gen_Balancer")
-    ll = _gen(ctx, "Gen_Balancer_ll.cfg" if q else "Gen_Balancer_ll_t.cfg", "Gen_Balancer")
-    sim = _gen(ctx, "Sim_Balancer_all.cfg", "Gen_Balancer", simulate="num=%d" % (40 if q else 3000), timeout=900)
+    rr, ll, sim = _parallel([
+        lambda: _gen(ctx, "Gen_Balancer_rr.cfg" if q else "Gen_Balancer_rr_t.cfg", "Gen_Balancer"),
+        lambda: _gen(ctx, "Gen_Balancer_ll.cfg" if q else "Gen_Balancer_ll_t.cfg", "Gen_Balancer"),
+        lambda: _gen(ctx, "Sim_Balancer_all.cfg", "Gen_Balancer", simulate="num=%d" % (40 if q else 3000), timeout=900)], workers=3)
     longs = [_long_run(3, 40000 if q else 400000, 20000), _long_run(4, 10000, 7), _long_run(2, 10000, 5001)]
     if len(rr) < 1000 or len(ll) < 500 or len(sim) < 50:
         raise vlib.Infra("behaviour generation produced too little (%d rr, %d ll, %d random)" % (len(rr), len(ll), len(sim)))
@@ -159,24 +170,16 @@ def _with_default_hasher(b, vn=0):
     return [dict(b[0], hasher="default", vn=vn)] + b[1:]
 
 
-def _parallel(jobs, workers=3):
-    import concurrent.futures as cf
-    with cf.ThreadPoolExecutor(max_workers=workers) as ex:
-        futs = [ex.submit(j) for j in jobs]
-        return [f.result() for f in futs]
-
-
 def run_c21(ctx, pid):
     q = ctx.quick
     rfields = ("op", "r", "key", "d")
     # 1. design: the repaired design satisfies C21 in the bounded model (W-bit counter: the whole counter cycle);
-    #    each deviation of the shipped code violates it in the model
+    #    each deviation of the shipped code violates it in the model (quick: a seed-rotated pair of them)
     t = "" if q else "_t"
-    holds = [("MC_Router_rr%s.cfg" % t, "MC_Router"), ("MC_Router_fr%s.cfg" % t, "MC_Router"),
-             ("MC_Router_hash%s.cfg" % t, "MC_Router"), ("MC_Ring_static%s.cfg" % t, "MC_RingSys")]
+    holds = [("MC_Router_plain%s.cfg" % t, "MC_Router"), ("MC_Router_hash%s.cfg" % t, "MC_Router"),
+             ("MC_Ring_static%s.cfg" % t, "MC_RingSys")]
     if not q:
         holds += [("MC_Router_hash_t2.cfg", "MC_Router"), ("MC_RingSys.cfg", "MC_RingSys")]
-    res = _parallel([(lambda c=c, m=m: ctx.tlc_must_hold(SPEC, c, module=m, timeout=2400, deadlock_check=False)) for c, m in holds], workers=2)
     defects = [("MC_Router_rr_WrapIndex.cfg", "MC_Router", ("NoDrop", "RoundRobin")),
                ("MC_Router_rr_MapOrder.cfg", "MC_Router", ("RoundRobin",)),
                ("MC_Router_rr_DeadRoutee.cfg", "MC_Router", ("NoDrop", "RoundRobin")),
@@ -184,34 +187,44 @@ def run_c21(ctx, pid):
                ("MC_Router_hash_DeadRoutee.cfg", "MC_Router", ("NoDrop", "Sticky")),
                ("MC_Router_hash_RingTie.cfg", "MC_Router", ("Sticky",)),
                ("MC_Ring_static_RingTie.cfg", "MC_RingSys", ("Monotone",))]
-    dres = _parallel([(lambda c=c, m=m, w=w: _expect_defect(ctx, c, m, w)) for c, m, w in defects], workers=3)
+    if q:
+        k = ctx.seed % len(defects)
+        defects = [defects[k], defects[(k + 3) % len(defects)]]
+    jobs = [(lambda c=c, m=m: ctx.tlc_must_hold(SPEC, c, module=m, timeout=2400, deadlock_check=False)) for c, m in holds]
+    jobs += [(lambda c=c, m=m, w=w: _expect_defect(ctx, c, m, w)) for c, m, w in defects]
+    allres = _parallel(jobs, workers=3)
+    res, dres = allres[:len(holds)], allres[len(holds):]
     ctx.log("design: %s hold; defect variants violate: %s"
             % (", ".join("%s %d states" % (c[3:-4], r.distinct) for (c, _), r in zip(holds, res)),
                ", ".join("%s->%s" % (c[3:-4], r.violated) for (c, _, _), r in zip(defects, dres))))
 
     # 2. behaviours from TLC (real counter width, presets just below the wrap)
     gens = _parallel([
-        lambda: _gen(ctx, "Gen_Router_rr%s.cfg" % t, "Gen_Router"),
-        lambda: _gen(ctx, "Gen_Router_fanout%s.cfg" % t, "Gen_Router"),
-        lambda: _gen(ctx, "Gen_Router_hash%s.cfg" % t, "Gen_Router"),
-        lambda: _gen(ctx, "Sim_Router_rr.cfg", "Gen_Router", simulate="num=%d" % (25 if q else 400)),
-        lambda: _gen(ctx, "Sim_Router_hash.cfg", "Gen_Router", simulate="num=%d" % (25 if q else 400)),
-        lambda: _gen(ctx, "Sim_Router_fanout.cfg", "Gen_Router", simulate="num=%d" % (10 if q else 200)),
+        lambda: _gen(ctx, "Gen_Router%s.cfg" % t, "Gen_Router", timeout=1500),
+        lambda: _gen(ctx, "Sim_Router.cfg", "Gen_Router", simulate="num=%d" % (60 if q else 1200)),
         lambda: _gen(ctx, "Gen_RingSys%s.cfg" % t, "Gen_RingSys"),
         lambda: _gen(ctx, "Sim_RingSys.cfg", "Gen_RingSys", simulate="num=%d" % (20 if q else 500)),
-    ], workers=3)
-    rr, fo, hs, srr, shs, sfo, rg, srg = gens
-    rr, fo, hs = _dedupe(rr, rfields), _dedupe(fo, rfields), _dedupe(hs, rfields)
+    ], workers=2 if q else 3)
+    bfs, sim, rg, srg = gens
+    bfs = _dedupe(bfs, rfields)
+    rr = [b for b in bfs if b[0]["strategy"] == "rr"]
+    fo = [b for b in bfs if b[0]["strategy"] in ("fanout", "random")]
+    hs = [b for b in bfs if b[0]["strategy"] == "hash"]
+    srr = [b for b in sim if b[0]["strategy"] == "rr"]
+    shs = [b for b in sim if b[0]["strategy"] == "hash"]
+    sfo = [b for b in sim if b[0]["strategy"] in ("fanout", "random")]
     rg = _dedupe(rg, ("op", "members", "key"))
     n_exh = len(rr) + len(fo) + len(hs)
-    if len(rr) < 500 or len(fo) < 200 or len(hs) < 500 or len(rg) < 500 or min(len(srr), len(shs), len(sfo), len(srg)) < 5:
+    if len(rr) < 500 or len(fo) < 200 or len(hs) < 500 or len(rg) < 500 or min(len(srr), len(shs), len(sfo), len(srg)) < 3:
         raise vlib.Infra("behaviour generation produced too little: %s" % [len(x) for x in gens])
     sampled = False
     if q:  # quick: every round-robin history, seed-dependent samples of the (much larger) fan-out / hash sets
         if len(fo) > 500:
             fo, sampled = ctx.rng.sample(fo, 500), True
-        if len(hs) > 1200:
-            hs, sampled = ctx.rng.sample(hs, 1200), True
+        if len(hs) > 1000:
+            hs, sampled = ctx.rng.sample(hs, 1000), True
+        if len(rg) > 3000:
+            rg, sampled = ctx.rng.sample(rg, 3000), True
     longs = [_router_long(3, 3000, 8000)] if q else [_router_long(3, 30000, 80000), _router_long(4, 5, 20000), _router_long(2, 10001, 30000)]
     dflt = [_with_default_hasher(b) for b in shs] + [_with_default_hasher(b, vn=3) for b in shs[: len(shs) // 2]]
     router_b = rr + fo + hs + srr + shs + sfo + longs + dflt
